@@ -1,12 +1,19 @@
 //! Shared driver for the framing family (C01, C03, C06, C07): runs the real `EncodeBody`
-//! and `Streaming` on scripted sources/bodies with a no-op waker, one poll at a time.
+//! and `Streaming` on scripted sources/bodies, one poll at a time, with a counting waker (see
+//! "waker discipline" below: a Pending without a wake-up is the observation `lost-wakeup`).
 //!
 //! Case grammar (space separated):
 //!   enc <c|s> <none|gzip|deflate|zstd> <i|d> <yieldThr> <bufSize> <max|none> <npolls> Z <k> (<raw> <comp>)*k EV <ev>*
 //!        ev: i<hex> item | e<code> source error | p pending
+//!            f<k>.<hex> item on which `Encoder::encode` fails after writing its first k bytes (raw codec only)
 //!   dec <req|resp<http>|empty> <none|gzip|deflate|zstd> <max|none> <bufSize> <npolls> Z <k> (<raw|F> <comp>)*k EV <ev>*
 //!        ev: d<hex> data chunk | t<code|none> trailers | e<code> body error | p pending
+//!   pdec … Z <k> … P <j> (<payload> <canonical re-encoding|F>)*j EV …   (prost codec: what prost, called
+//!        directly, makes of every frame payload a naive header walk finds; F = it does not decode)
 //! Observed: one token per poll.  enc: d<hex> | t<code>:<cls> | e<code>:<cls> | p | n
+//!     then E<bits>: `Body::is_end_stream()` before every poll and after the last one, and
+//!     Hd (every `Body::size_hint()` observed at those points was the default: lower 0, no upper)
+//!     or H<lower>/<upper|->,… (all of them)
 //!                                dec: m<hex> | e<code>:<cls> | n | p
 use crate::common::*;
 use bytes::{Buf, BufMut, Bytes};
@@ -20,6 +27,110 @@ use tokio_stream::Stream;
 use tonic::codec::{BufferSettings, CompressionEncoding, DecodeBuf, Decoder, EncodeBody, EncodeBuf, Encoder};
 use tonic::{Status, Streaming};
 
+// ---------- byte strings in tokens: bare hex with run-length groups ----------
+
+/// Bare hex; a run of 32 or more equal bytes is written `(bb*N)`.  Canonical (greedy, maximal runs
+/// from the left), so that the Lean side renders the same bytes to the same text.  Keeps cases
+/// with 16 MiB messages (rev1 S5) a few hundred bytes long.
+pub fn hexr(b: &[u8]) -> String {
+    const D: &[u8; 16] = b"0123456789abcdef";
+    let mut s = String::with_capacity(64.min(b.len()) * 2);
+    let mut i = 0;
+    while i < b.len() {
+        let x = b[i];
+        let mut j = i + 1;
+        while j < b.len() && b[j] == x {
+            j += 1;
+        }
+        if j - i >= 32 {
+            s.push('(');
+            s.push(D[(x >> 4) as usize] as char);
+            s.push(D[(x & 15) as usize] as char);
+            s.push('*');
+            s.push_str(&(j - i).to_string());
+            s.push(')');
+            i = j;
+        } else {
+            s.push(D[(x >> 4) as usize] as char);
+            s.push(D[(x & 15) as usize] as char);
+            i += 1;
+        }
+    }
+    s
+}
+
+pub fn unhexr(s: &str) -> Vec<u8> {
+    let b = s.as_bytes();
+    let v = |c: u8| -> u8 {
+        match c {
+            b'0'..=b'9' => c - b'0',
+            b'a'..=b'f' => c - b'a' + 10,
+            _ => panic!("bad hex digit in case token"),
+        }
+    };
+    let mut out = Vec::new();
+    let mut i = 0;
+    while i < b.len() {
+        if b[i] == b'(' {
+            let close = i + s[i..].find(')').expect("unterminated run");
+            let (byte, n) = s[i + 1..close].split_once('*').expect("(bb*N)");
+            let x = v(byte.as_bytes()[0]) * 16 + v(byte.as_bytes()[1]);
+            out.resize(out.len() + n.parse::<usize>().unwrap(), x);
+            i = close + 1;
+        } else {
+            out.push(v(b[i]) * 16 + v(b[i + 1]));
+            i += 2;
+        }
+    }
+    out
+}
+
+// ---------- waker discipline ----------
+//
+// A `Poll::Pending` is only legitimate if somebody will wake the task: under a real executor a
+// stream that returns Pending without a wake-up having been registered parks for ever.  The
+// scripted doubles model "not ready now, ready again at once": they wake the waker they were
+// polled with before returning Pending.  The drivers poll with a counting waker; a Pending from
+// the code under test during which no wake-up was issued is the observation `lost-wakeup`, and
+// the driver stops polling that stream, as an executor would.
+
+pub struct CountingWake {
+    pub wakes: std::sync::atomic::AtomicUsize,
+    /// a real task waker to pass the wake-up on to (drivers running under an executor)
+    pub inner: Option<Waker>,
+}
+
+impl std::task::Wake for CountingWake {
+    fn wake(self: std::sync::Arc<Self>) {
+        self.wake_by_ref()
+    }
+    fn wake_by_ref(self: &std::sync::Arc<Self>) {
+        self.wakes.fetch_add(1, std::sync::atomic::Ordering::SeqCst);
+        if let Some(w) = &self.inner {
+            w.wake_by_ref();
+        }
+    }
+}
+
+pub fn counting_waker(inner: Option<Waker>) -> (std::sync::Arc<CountingWake>, Waker) {
+    let c = std::sync::Arc::new(CountingWake { wakes: std::sync::atomic::AtomicUsize::new(0), inner });
+    (c.clone(), Waker::from(c))
+}
+
+impl CountingWake {
+    pub fn count(&self) -> usize {
+        self.wakes.load(std::sync::atomic::Ordering::SeqCst)
+    }
+}
+
+/// Did the poll that just returned Pending leave the task without any prospect of being woken?
+/// (no wake-up issued since `wakes_before`, and nobody kept a clone of the waker: `refs_before`
+/// is the `Arc` count before the poll)
+pub fn no_wakeup(c: &std::sync::Arc<CountingWake>, wakes_before: usize, refs_before: usize) -> bool {
+    c.count() == wakes_before && std::sync::Arc::strong_count(c) <= refs_before
+}
+
+#[allow(dead_code)]
 pub fn noop_waker() -> Waker {
     fn clone(_: *const ()) -> RawWaker {
         RawWaker::new(std::ptr::null(), &VT)
@@ -57,6 +168,30 @@ impl Decoder for RawDec {
             return Err(Status::internal("codec"));
         }
         Ok(Some(b.to_vec()))
+    }
+    fn buffer_settings(&self) -> BufferSettings {
+        self.0
+    }
+}
+
+/// The raw encoder with a failure switch: an item `(bytes, Some(k))` makes `Encoder::encode`
+/// write the first `k` bytes and then return an error (rev1 S2: a failing `Encoder::encode`).
+#[derive(Clone, Copy)]
+pub struct FailEnc(pub BufferSettings);
+impl Encoder for FailEnc {
+    type Item = (Vec<u8>, Option<usize>);
+    type Error = Status;
+    fn encode(&mut self, item: (Vec<u8>, Option<usize>), dst: &mut EncodeBuf<'_>) -> Result<(), Status> {
+        match item.1 {
+            None => {
+                dst.put_slice(&item.0);
+                Ok(())
+            }
+            Some(k) => {
+                dst.put_slice(&item.0[..k.min(item.0.len())]);
+                Err(Status::internal("enc"))
+            }
+        }
     }
     fn buffer_settings(&self) -> BufferSettings {
         self.0
@@ -181,34 +316,64 @@ pub fn ztable_tokens(tab: &[(Option<Vec<u8>>, Vec<u8>)]) -> String {
     format!("Z {} {}", parts.len(), parts.join(" ")).trim_end().to_string()
 }
 
+/// What prost itself (called directly, not through tonic) makes of a payload offered as a
+/// `google.protobuf.Any`: its canonical re-encoding, or `None` when it does not decode.
+pub fn oracle_prost(payload: &[u8]) -> Option<Vec<u8>> {
+    <prost_types::Any as prost::Message>::decode(payload).ok().map(|m| prost::Message::encode_to_vec(&m))
+}
+
+/// Every complete frame payload a naive header walk finds in `bytes` (decompressed by the
+/// reference decompressor when its flag is 1), with prost's verdict on it.
+pub fn ptable_for_stream(e: Option<CompressionEncoding>, bytes: &[u8]) -> Vec<(Vec<u8>, Option<Vec<u8>>)> {
+    let mut out = Vec::new();
+    let mut i = 0;
+    while i + 5 <= bytes.len() {
+        let len = u32::from_be_bytes([bytes[i + 1], bytes[i + 2], bytes[i + 3], bytes[i + 4]]) as usize;
+        if i + 5 + len > bytes.len() {
+            break;
+        }
+        let pl = &bytes[i + 5..i + 5 + len];
+        let raw = match (bytes[i], e) {
+            (1, Some(e)) => oracle_decompress(e, pl),
+            _ => Some(pl.to_vec()),
+        };
+        if let Some(raw) = raw {
+            let v = oracle_prost(&raw);
+            out.push((raw, v));
+        }
+        i += 5 + len;
+    }
+    out
+}
+
+pub fn ptable_tokens(tab: &[(Vec<u8>, Option<Vec<u8>>)]) -> String {
+    let mut seen = std::collections::HashSet::new();
+    let mut parts = Vec::new();
+    for (pl, canon) in tab {
+        if seen.insert(pl.clone()) {
+            parts.push(format!("{} {}", hex(pl), canon.as_ref().map(|r| hex(r)).unwrap_or_else(|| "F".into())));
+        }
+    }
+    format!("P {} {}", parts.len(), parts.join(" ")).trim_end().to_string()
+}
+
 // ---------- status classification ----------
 
+/// Who produced a status, judged without reading tonic's message texts (rev1-FA1: rewording a
+/// message is not an alarm): the harness's own doubles mark theirs with the messages `user`
+/// (scripted source / body / trailers) and `codec` (the raw decoder double); every other non-OK
+/// status was made by tonic itself (`t`).  What distinguishes tonic's own statuses for the
+/// property is the code, which is compared exactly.
 pub fn cls_of(st: &Status) -> &'static str {
     let m = st.message();
     if st.code() == tonic::Code::Ok {
         "ok"
     } else if m == "user" {
         "user"
-    } else if m.starts_with("Error, encoded message length too large") {
-        "tooLargeEnc"
-    } else if m.starts_with("Cannot return body with more than 4GB") {
-        "over4G"
-    } else if m.starts_with("protocol error: received message with invalid compression flag") {
-        "badFlag"
-    } else if m.starts_with("protocol error: received message with compressed-flag but no grpc-encoding") {
-        "noEncoding"
-    } else if m.starts_with("Error, decoded message length too large") {
-        "tooLargeDec"
-    } else if m.starts_with("Error decompressing") {
-        "decompress"
     } else if m == "codec" {
         "codec"
-    } else if m.starts_with("Unexpected EOF decoding stream") {
-        "eof"
-    } else if m.starts_with("grpc-status header missing, mapped from HTTP status code") {
-        "http"
     } else {
-        "other"
+        "t"
     }
 }
 
@@ -220,6 +385,8 @@ pub fn st_tok(prefix: &str, st: &Status) -> String {
 
 pub enum SrcEv {
     Item(Vec<u8>),
+    /// an item the encoder double fails on after writing this many bytes
+    FailItem(Vec<u8>, usize),
     Err(i32),
     Pending,
 }
@@ -233,8 +400,8 @@ pub struct ScriptedSource {
 }
 
 impl Stream for ScriptedSource {
-    type Item = Result<Vec<u8>, Status>;
-    fn poll_next(mut self: Pin<&mut Self>, _cx: &mut Context<'_>) -> Poll<Option<Self::Item>> {
+    type Item = Result<(Vec<u8>, Option<usize>), Status>;
+    fn poll_next(mut self: Pin<&mut Self>, cx: &mut Context<'_>) -> Poll<Option<Self::Item>> {
         match self.evs.pop_front() {
             None => {
                 self.polls_after_end += 1;
@@ -243,8 +410,13 @@ impl Stream for ScriptedSource {
                 }
                 Poll::Ready(None)
             }
-            Some(SrcEv::Pending) => Poll::Pending,
-            Some(SrcEv::Item(v)) => Poll::Ready(Some(Ok(v))),
+            Some(SrcEv::Pending) => {
+                // "ready again at once": the wake-up is issued to whoever polled
+                cx.waker().wake_by_ref();
+                Poll::Pending
+            }
+            Some(SrcEv::Item(v)) => Poll::Ready(Some(Ok((v, None)))),
+            Some(SrcEv::FailItem(v, k)) => Poll::Ready(Some(Ok((v, Some(k))))),
             Some(SrcEv::Err(c)) => Poll::Ready(Some(Err(Status::new(tonic::Code::from_i32(c), "user")))),
         }
     }
@@ -265,13 +437,16 @@ pub struct ScriptedBody {
 impl Body for ScriptedBody {
     type Data = Bytes;
     type Error = Status;
-    fn poll_frame(mut self: Pin<&mut Self>, _cx: &mut Context<'_>) -> Poll<Option<Result<Frame<Bytes>, Status>>> {
+    fn poll_frame(mut self: Pin<&mut Self>, cx: &mut Context<'_>) -> Poll<Option<Result<Frame<Bytes>, Status>>> {
         match self.evs.pop_front() {
             None => {
                 self.polls_after_end.fetch_add(1, std::sync::atomic::Ordering::SeqCst);
                 Poll::Ready(None)
             }
-            Some(BodyEv::Pending) => Poll::Pending,
+            Some(BodyEv::Pending) => {
+                cx.waker().wake_by_ref();
+                Poll::Pending
+            }
             Some(BodyEv::Data(v)) => Poll::Ready(Some(Ok(Frame::data(Bytes::from(v))))),
             Some(BodyEv::Err(c)) => Poll::Ready(Some(Err(Status::new(tonic::Code::from_i32(c), "user")))),
             Some(BodyEv::Trailers(code)) => {
@@ -332,7 +507,11 @@ fn exec_enc_with(t: &[&str], prost: bool) -> String {
     let evs: VecDeque<SrcEv> = t[ev_start(t)..]
         .iter()
         .map(|e| match e.as_bytes()[0] {
-            b'i' => SrcEv::Item(unhex(&format!("x{}", &e[1..])).unwrap()),
+            b'i' => SrcEv::Item(unhexr(&e[1..])),
+            b'f' => {
+                let (k, h) = e[1..].split_once('.').expect("f<k>.<hex>");
+                SrcEv::FailItem(unhexr(h), k.parse().unwrap())
+            }
             b'e' => SrcEv::Err(e[1..].parse().unwrap()),
             _ => SrcEv::Pending,
         })
@@ -343,14 +522,14 @@ fn exec_enc_with(t: &[&str], prost: bool) -> String {
     let body: Pin<Box<dyn Body<Data = Bytes, Error = Status>>> = if prost {
         use tokio_stream::StreamExt;
         let enc = tonic::codec::ProstCodec::<prost_types::Any, prost_types::Any>::raw_encoder(bs);
-        let src = src.map(|r| r.map(|v| <prost_types::Any as prost::Message>::decode(&v[..]).expect("case items are valid Any")));
+        let src = src.map(|r| r.map(|(v, _)| <prost_types::Any as prost::Message>::decode(&v[..]).expect("case items are valid Any")));
         if server {
             Box::pin(EncodeBody::new_server(enc, src, comp, ovr(), max))
         } else {
             Box::pin(EncodeBody::new_client(enc, src, comp, max))
         }
     } else {
-        let enc = RawEnc(bs);
+        let enc = FailEnc(bs);
         if server {
             Box::pin(EncodeBody::new_server(enc, src, comp, ovr(), max))
         } else {
@@ -358,17 +537,33 @@ fn exec_enc_with(t: &[&str], prost: bool) -> String {
         }
     };
     let mut body = body;
-    let waker = noop_waker();
+    let (wakes, waker) = counting_waker(None);
     let mut cx = Context::from_waker(&waker);
     let mut out = Vec::new();
-    for _ in 0..npolls {
+    let mut end_flags = String::new();
+    let mut hints: Vec<(u64, Option<u64>)> = Vec::new();
+    for i in 0..=npolls {
+        // what hyper looks at between polls: a true `is_end_stream` makes it finish the stream
+        // without polling again (rev1 S3), `size_hint` feeds content-length decisions
+        end_flags.push(if body.is_end_stream() { '1' } else { '0' });
+        let h = body.size_hint();
+        hints.push((h.lower(), h.upper()));
+        if i == npolls {
+            break;
+        }
+        let (woken_before, refs_before) = (wakes.count(), std::sync::Arc::strong_count(&wakes));
         match body.as_mut().poll_frame(&mut cx) {
+            Poll::Pending if no_wakeup(&wakes, woken_before, refs_before) => {
+                // Pending, and nobody was asked to wake us: the stream would park for ever
+                out.push("lost-wakeup".to_string());
+                break;
+            }
             Poll::Pending => out.push("p".to_string()),
             Poll::Ready(None) => out.push("n".to_string()),
             Poll::Ready(Some(Err(st))) => out.push(st_tok("e", &st)),
             Poll::Ready(Some(Ok(frame))) => {
                 if frame.is_data() {
-                    out.push(format!("d{}", &hex(&frame.into_data().unwrap())[1..]));
+                    out.push(format!("d{}", hexr(&frame.into_data().unwrap())));
                 } else {
                     let tr = frame.into_trailers().unwrap();
                     let st = Status::from_header_map(&tr).unwrap_or_else(|| Status::unknown("no grpc-status in trailers"));
@@ -376,6 +571,13 @@ fn exec_enc_with(t: &[&str], prost: bool) -> String {
                 }
             }
         }
+    }
+    out.push(format!("E{}", end_flags));
+    if hints.iter().all(|h| *h == (0, None)) {
+        out.push("Hd".to_string());
+    } else {
+        let l: Vec<String> = hints.iter().map(|(l, u)| format!("{}/{}", l, u.map(|u| u.to_string()).unwrap_or_else(|| "-".into()))).collect();
+        out.push(format!("H{}", l.join(",")));
     }
     out.join(" ")
 }
@@ -396,7 +598,7 @@ fn exec_dec_with(t: &[&str], prost: bool) -> String {
     let evs: VecDeque<BodyEv> = t[ev_start(t)..]
         .iter()
         .map(|e| match e.as_bytes()[0] {
-            b'd' => BodyEv::Data(unhex(&format!("x{}", &e[1..])).unwrap()),
+            b'd' => BodyEv::Data(unhexr(&e[1..])),
             b't' => BodyEv::Trailers(if &e[1..] == "none" { None } else { Some(e[1..].parse().unwrap()) }),
             b'e' => BodyEv::Err(e[1..].parse().unwrap()),
             _ => BodyEv::Pending,
@@ -407,7 +609,7 @@ fn exec_dec_with(t: &[&str], prost: bool) -> String {
     let all_data: Vec<u8> = evs.iter().flat_map(|e| if let BodyEv::Data(d) = e { d.clone() } else { vec![] }).collect();
     let body = ScriptedBody { evs, polls_after_end: after.clone() };
     let bs = BufferSettings::new(buf_size, 32 * 1024);
-    let waker = noop_waker();
+    let (wakes, waker) = counting_waker(None);
     let mut cx = Context::from_waker(&waker);
     let mut out = Vec::new();
     // allocation budget for this case: a generous multiple of everything the decoder may
@@ -415,7 +617,12 @@ fn exec_dec_with(t: &[&str], prost: bool) -> String {
     // … plus twice the largest length a header within the limit announces (the decoder may
     // reserve that much; what it must never do is reserve for a length over the limit)
     let limit = if t[1] == "empty" { 4 * 1024 * 1024 } else { max.unwrap_or(4 * 1024 * 1024) };
-    let budget = 64 * (total_data + buf_size) + 1024 * 1024 + 2 * declared_within(&all_data, limit);
+    // … plus a small multiple of the largest decompressed message (the reference decompressor's
+    // table says how large): a message that compresses 1000:1 legitimately needs its raw size
+    let zpos = t.iter().position(|x| *x == "Z").unwrap();
+    let zk: usize = t[zpos + 1].parse().unwrap();
+    let max_raw = (0..zk).map(|i| t[zpos + 2 + 2 * i]).filter(|r| *r != "F").map(|r| (r.len() - 1) / 2).max().unwrap_or(0);
+    let budget = 64 * (total_data + buf_size) + 1024 * 1024 + 2 * declared_within(&all_data, limit) + 4 * max_raw;
     reset_max_alloc();
     macro_rules! mk {
         ($dec:expr) => {
@@ -439,15 +646,20 @@ fn exec_dec_with(t: &[&str], prost: bool) -> String {
         Either::Raw(mk!(RawDec(bs)))
     };
     for _ in 0..npolls {
+        let (woken_before, refs_before) = (wakes.count(), std::sync::Arc::strong_count(&wakes));
         let r: Poll<Option<Result<Vec<u8>, Status>>> = match &mut stream {
             Either::Raw(s) => Pin::new(s).poll_next(&mut cx),
             Either::Prost(s) => Pin::new(s).poll_next(&mut cx).map(|o| o.map(|r| r.map(|m| prost::Message::encode_to_vec(&m)))),
         };
         match r {
+            Poll::Pending if no_wakeup(&wakes, woken_before, refs_before) => {
+                out.push("lost-wakeup".to_string());
+                break;
+            }
             Poll::Pending => out.push("p".to_string()),
             Poll::Ready(None) => out.push("n".to_string()),
             Poll::Ready(Some(Err(st))) => out.push(st_tok("e", &st)),
-            Poll::Ready(Some(Ok(m))) => out.push(format!("m{}", &hex(&m)[1..])),
+            Poll::Ready(Some(Ok(m))) => out.push(format!("m{}", hexr(&m))),
         }
         if after.load(std::sync::atomic::Ordering::SeqCst) > 1000 {
             out.push("busy-loop".into());
@@ -461,6 +673,10 @@ fn exec_dec_with(t: &[&str], prost: bool) -> String {
 }
 
 // ---------- generators ----------
+
+/// buffer sizes every generator draws from: `BufferSettings::new` is public and takes any usize,
+/// 0 included (rev1 §1: 0 used to divide by zero in compress/decompress)
+pub const BUF_SIZES: [usize; 9] = [0, 1, 2, 3, 4, 5, 16, 1024, 8192];
 
 pub const ENCS: [Option<CompressionEncoding>; 4] = [
     None,
@@ -590,7 +806,13 @@ pub fn gen_enc_case(rng: &mut Rng, errors: bool, limit: bool) -> EncCase {
             evs.push(format!("e{}", rng.range(1, 16)));
         }
         let m = gen_msg(rng, maxlen);
-        evs.push(format!("i{}", &hex(&m)[1..]));
+        if errors && rng.chance(1, 8) {
+            // `Encoder::encode` fails on this item after writing some of it
+            let k = rng.below(m.len() as u64 + 1) as usize;
+            evs.push(format!("f{}.{}", k, hexr(&m)));
+            continue;
+        }
+        evs.push(format!("i{}", hexr(&m)));
         items.push(m);
     }
     while rng.chance(1, 3) {
@@ -623,7 +845,7 @@ pub fn gen_enc_case(rng: &mut Rng, errors: bool, limit: bool) -> EncCase {
         comp,
         disable: rng.chance(1, 5),
         yield_thr,
-        buf_size: *rng.pick(&[1usize, 5, 16, 1024, 8192]),
+        buf_size: *rng.pick(&BUF_SIZES),
         max,
         evs,
         items,
@@ -655,6 +877,30 @@ impl DecCase {
             self.buf_size,
             self.evs.len() + naive_frame_count(&self.stream) + 2 + self.extra_polls,
             ztable_tokens(&tab),
+            self.evs.join(" ")
+        )
+        .trim_end()
+        .to_string()
+    }
+}
+
+impl DecCase {
+    /// the same case through the real `ProstCodec` (`pdec`), with prost's own verdict on every
+    /// frame payload as a table for the Lean side
+    pub fn pline(&self) -> String {
+        let tab = match self.enc {
+            Some(e) => ztable_for_stream(e, &self.stream),
+            None => vec![],
+        };
+        format!(
+            "pdec {} {} {} {} {} {} {} EV {}",
+            self.dir,
+            enc_name(self.enc),
+            self.max.map(|m| m.to_string()).unwrap_or_else(|| "none".into()),
+            self.buf_size,
+            self.evs.len() + naive_frame_count(&self.stream) + 2 + self.extra_polls,
+            ztable_tokens(&tab),
+            ptable_tokens(&ptable_for_stream(self.enc, &self.stream)),
             self.evs.join(" ")
         )
         .trim_end()
@@ -707,7 +953,7 @@ pub fn events_from_chunks(rng: &mut Rng, chunks: Vec<Vec<u8>>, pendings: bool) -
         while pendings && rng.chance(1, 4) {
             evs.push("p".to_string());
         }
-        evs.push(format!("d{}", &hex(&c)[1..]));
+        evs.push(format!("d{}", hexr(&c)));
     }
     while pendings && rng.chance(1, 4) {
         evs.push("p".to_string());
@@ -742,7 +988,7 @@ pub fn gen_dec_valid(rng: &mut Rng, limit: bool) -> DecCase {
     } else {
         None
     };
-    DecCase { dir, enc, max, buf_size: *rng.pick(&[1usize, 5, 16, 1024, 8192]), evs, stream: bytes, extra_polls: rng.below(4) as usize }
+    DecCase { dir, enc, max, buf_size: *rng.pick(&BUF_SIZES), evs, stream: bytes, extra_polls: rng.below(4) as usize }
 }
 
 /// Hostile input: mutations of a valid stream, truncations, raw random bytes, injected body
@@ -827,5 +1073,134 @@ pub fn gen_dec_hostile(rng: &mut Rng) -> DecCase {
         1 => Some(4 * 1024 * 1024),
         _ => None,
     };
-    DecCase { dir: gen_dir(rng), enc, max, buf_size: *rng.pick(&[1usize, 16, 8192]), evs, stream: bytes, extra_polls: 3 + rng.below(6) as usize }
+    DecCase { dir: gen_dir(rng), enc, max, buf_size: *rng.pick(&BUF_SIZES), evs, stream: bytes, extra_polls: 3 + rng.below(6) as usize }
+}
+
+// ---------- hostile and unusual protobuf payloads for the real prost decoder (rev1 S1, seed C07c) ----------
+
+/// A payload prost must refuse (almost always; the `P` table carries prost's own verdict, so a
+/// mutation that happens to stay decodable is still judged correctly): a valid `Any` encoding
+/// with one protobuf-level defect.
+pub fn gen_pb_hostile_payload(rng: &mut Rng) -> Vec<u8> {
+    let mut p = if rng.chance(1, 4) { Vec::new() } else { gen_any_msg(rng, 20) };
+    match rng.below(16) {
+        0 => p.extend([0x0a, 0x80]),                     // length varint truncated by the end of the payload
+        1 => p.push(*rng.pick(&[0x80u8, 0xff, 0x8a])),   // key varint truncated by the end of the payload
+        2 => {
+            let k = 1 + rng.below(7) as usize;           // zero bytes where a field key is expected (tail padding)
+            p.extend(vec![0u8; k]);
+        }
+        3 => p.insert(0, 0),                             // zero key first, fields after it
+        4 => {
+            p.extend(vec![0xff; 10]);                    // over-long key varint (11 bytes)
+            p.push(0x7f);
+        }
+        5 => {
+            p.push(0x0a);                                // over-long length varint
+            p.extend(vec![0x80; 10]);
+            p.push(0x01);
+        }
+        6 => p.extend([0x08, 0x05]),                     // field 1 (string) with wire type varint
+        7 => p.extend([0x15, 1, 2, 3, 4]),               // field 2 (bytes) with wire type fixed32
+        8 => {
+            p.push(*rng.pick(&[0x0eu8, 0x0f, 0x16, 0x17])); // wire types 6 and 7 do not exist
+            p.push(0);
+        }
+        9 => p.extend([0x0a, 0x7f, 0x61, 0x62]),         // length-delimited field longer than the payload
+        10 => p.extend([0x12, 0xff, 0xff, 0xff, 0xff, 0x0f, 0x01]), // bytes field of 4 GiB - 1
+        11 => p.extend([0x0a, 0x02, 0xff, 0xfe]),        // type_url is not UTF-8
+        12 => p.push(0x0c),                              // end-group without a start
+        13 => p.extend([0x1b, 0x18, 0x05]),              // group opened, never closed
+        14 => {
+            let cut = rng.below(p.len() as u64 + 1) as usize; // valid encoding cut anywhere
+            p.truncate(cut);
+            p.push(0x0a);
+            p.push(0x05);
+        }
+        _ => {
+            let n = 1 + rng.below(12) as usize;
+            p = rng.bytes(n);
+        }
+    }
+    p
+}
+
+/// A payload prost accepts although no encoder would write it that way: unknown fields of every
+/// wire type, repeated and reordered fields, non-minimal varints, explicit defaults.  The message
+/// it decodes to is in the case's `P` table.
+pub fn gen_pb_unusual_valid(rng: &mut Rng) -> Vec<u8> {
+    let mut p = Vec::new();
+    let k = 1 + rng.below(4);
+    for _ in 0..k {
+        match rng.below(10) {
+            0 => p.extend([0x18, 0x05]),                              // unknown field 3, varint
+            1 => p.extend([0x22, 0x03, 0x61, 0x62, 0x63]),            // unknown field 4, length-delimited
+            2 => p.extend([0x29, 1, 2, 3, 4, 5, 6, 7, 8]),            // unknown field 5, fixed64
+            3 => p.extend([0x35, 1, 2, 3, 4]),                        // unknown field 6, fixed32
+            4 => p.extend([0x1b, 0x18, 0x05, 0x1c]),                  // unknown group 3 { 3: 5 }
+            5 => p.extend([0x12, 0x01, 0x09, 0x0a, 0x01, 0x61]),      // value before type_url
+            6 => p.extend([0x0a, 0x01, 0x61, 0x0a, 0x01, 0x62]),      // type_url twice (last wins)
+            7 => p.extend([0x0a, 0x82, 0x00, 0x61, 0x62]),            // non-minimal length varint
+            8 => p.extend([0x0a, 0x00, 0x12, 0x00]),                  // explicit defaults
+            _ => p.extend(gen_any_msg(rng, 12)),
+        }
+    }
+    p
+}
+
+/// Hostile input for the prost decoder: a stream of frames some of whose payloads are defective
+/// protobuf (each followed by more frames, so that reading past a payload's end finds bytes),
+/// optionally with a wrong length prefix, under every chunking style, with and without injected
+/// trailers / body errors.
+pub fn gen_pdec_hostile(rng: &mut Rng) -> DecCase {
+    let enc = *rng.pick(&ENCS);
+    let n = 1 + rng.below(4) as usize;
+    let bad_at = rng.below(n as u64) as usize;
+    let mut bytes = Vec::new();
+    let mut starts = Vec::new();
+    for i in 0..n {
+        let m = if i == bad_at || rng.chance(1, 5) {
+            gen_pb_hostile_payload(rng)
+        } else if rng.chance(1, 4) {
+            gen_pb_unusual_valid(rng)
+        } else {
+            gen_any_msg(rng, 30)
+        };
+        starts.push(bytes.len());
+        match enc {
+            Some(e) if rng.chance(1, 3) => bytes.extend(frame(1, &oracle_compress(e, &m))),
+            _ => bytes.extend(frame(0, &m)),
+        }
+    }
+    if rng.chance(1, 5) {
+        // the declared length is a few bytes off: part of the payload / of the next header is read as something else
+        let s = starts[rng.below(starts.len() as u64) as usize];
+        let len = u32::from_be_bytes([bytes[s + 1], bytes[s + 2], bytes[s + 3], bytes[s + 4]]);
+        let k = 1 + rng.below(6) as u32;
+        let new = if rng.chance(1, 2) { len.saturating_sub(k.min(len)) } else { len + k };
+        bytes[s + 1..s + 5].copy_from_slice(&new.to_be_bytes());
+    }
+    let style = rng.below(4);
+    let chunks = chunkings(rng, &bytes, &starts, style);
+    let pend = rng.chance(1, 2);
+    let mut evs = events_from_chunks(rng, chunks, pend);
+    match rng.below(8) {
+        0 => {
+            let pos = rng.below(evs.len() as u64 + 1) as usize;
+            evs.insert(pos, format!("e{}", rng.pick(&[1u8, 2, 13, 14])));
+        }
+        1 => {
+            let pos = rng.below(evs.len() as u64 + 1) as usize;
+            evs.insert(pos, format!("t{}", rng.pick(&["0", "none", "5"])));
+        }
+        2 => evs.push(format!("t{}", rng.pick(&["0", "none", "5"]))),
+        _ => {}
+    }
+    let dir = match rng.below(4) {
+        0 | 1 => "req".to_string(),
+        2 => "resp200".to_string(),
+        _ => gen_dir(rng),
+    };
+    let dir = if dir == "empty" && enc.is_some() { "req".to_string() } else { dir };
+    DecCase { dir, enc, max: if rng.chance(1, 6) { Some(rng.below(40) as usize) } else { None }, buf_size: *rng.pick(&BUF_SIZES), evs, stream: bytes, extra_polls: 3 + rng.below(4) as usize }
 }
